@@ -320,6 +320,26 @@ def f_inverted_range(rng, d):
     return d
 
 
+def f_inverted_range_max_zero(rng, d):
+    # the bounds of an ordinary 0..k range swapped: a maximum of exactly 0 is a maximum
+    ocs = [oc for oc in walk_operand_configs(d) if oc.get('type') == 'numeric_bytecode']
+    if not ocs:
+        return None
+    oc = rng.choice(ocs)
+    oc['bytecode']['min'], oc['bytecode']['max'] = rng.choice([1, 1, 3]), 0
+    return d
+
+
+def f_count_zero_with_lists(rng, d):
+    # an operand count of 0 beside operand lists that are not empty
+    vs = _variants_with(d, lambda v: (v.get('operands') or {}).get('count', 0) > 0
+                        and ('operand_sets' in v['operands'] or 'specific_operands' in v['operands']))
+    if not vs:
+        return None
+    rng.choice(vs)['operands']['count'] = 0
+    return d
+
+
 def f_inverted_relative_range(rng, d):
     ocs = [oc for oc in walk_operand_configs(d) if oc.get('type') == 'relative_address' and isinstance(oc.get('argument'), dict)]
     if not ocs:
@@ -400,6 +420,7 @@ def f_min_version_garbage(rng, d):
 
 FAULTS = [f_no_general, f_no_instructions, f_no_operand_sets, f_mnemonic_keyword, f_macro_keyword, f_register_keyword,
           f_register_keyword_other_case, f_inverted_relative_range, f_zone_below_space, f_macro_is_instruction_other_case,
+          f_inverted_range_max_zero, f_count_zero_with_lists,
           f_undeclared_register_in_register, f_undeclared_register_in_indexed_register, f_undeclared_register_in_indirect_register,
           f_undeclared_register_in_indirect_indexed_register,
           f_macro_is_instruction, f_no_bytecode, f_no_count, f_unknown_set, f_count_vs_sets, f_count_vs_specific,
